@@ -168,8 +168,9 @@ class SRRLaser(Laser):
                 self.config.get_pixel_width(layer),
                 self.config.get_pixel_height(layer),
             )
-            x0, x1 = int(x0 / px), int(x1 / px)
-            y0, y1 = int(y0 / py), int(y1 / py)
+            # round off floating point error before truncation
+            x0, x1 = int(round(x0 / px, 6)), int(round(x1 / px, 6))
+            y0, y1 = int(round(y0 / py, 6)), int(round(y1 / py, 6))
             # We have to invert the extent, as mpl use bottom left y coords
             ymax = data.shape[0]
             data = data[ymax - y1 : ymax - y0, x0:x1]
